@@ -1,6 +1,9 @@
 package main
 
-import "fmt"
+import (
+	"fmt"
+	"strings"
+)
 
 // ---------------------------------------------------------------------------------------------------
 // pairs: every construct of the query language directly under every other construct, in every operand position - written as
@@ -42,9 +45,14 @@ func genRelated() {
 	nums := [][2]string{{"1", "5"}, {"5", "1"}, {"5", "5"}, {"1.5", "99"}, {"-3", "0"}, {"10", "20"}}
 	strs := [][2]string{{"b", "b"}, {"b", "B"}, {"abc", "abd"}, {"x", "\"x\""}, {"\"q r\"", "\"q  r\""}, {"5", "\"5\""}, {"w*", "w?"}, {"w*", "\"w*\""}}
 	conns := []string{" AND ", " OR ", " ", " AND NOT ", " OR -"}
+	g := 800000
 	emit := func(q string) {
 		emitQ(q, "", "src=related")
 		emitQ("("+q+") OR x:y", "d", "src=related")
+		// and as a C11 pair: without and with a default field the query does not mention
+		emitQ(q, "", fmt.Sprintf("rel=C11;g=%d;role=a", g))
+		emitQ(q, "dflt", fmt.Sprintf("rel=C11;g=%d;role=b", g))
+		g++
 	}
 	for _, o1 := range ops {
 		for _, o2 := range ops {
@@ -68,6 +76,34 @@ func genRelated() {
 			emit("a:<=5" + c + "a:" + r)
 			emit("a:" + r + c + "a:" + r)
 		}
+	}
+	// characters that come in pairs, split across two values of one query: an opening one in one value, the closing one in another
+	for _, pc := range [][2]string{{"(", ")"}, {"[", "]"}, {"{", "}"}, {"'", "'"}, {"/*", "*/"}, {"((", ")"}, {"(", "))"}, {"$$", "$$"}, {"E'", "'"}} {
+		o, c := pc[0], pc[1]
+		for _, tpl := range []string{`(a:"%sx" OR b:"y%s") AND c:1`, `a:"%sx" AND (b:"y%s" OR c:1)`, `NOT (a:"%sx" AND b:"y%s")`, `(a:"%sx" OR b:"y%s") AND (c:"%sz" OR d:1)`,
+			`a:"%sx" b:"y%s"`, `a:("%sx" OR "y%s") AND c:1`, `(a:"x%s" OR b:"%sy") AND c:1`, `+(a:"%sx" OR b:w*) -(c:"y%s" AND d:2)`} {
+			args := []any{o, c, o}
+			if strings.Contains(tpl, `"x%s" OR b:"%sy"`) {
+				args = []any{c, o}
+			}
+			n := countVerb(tpl)
+			emitQ(fmt.Sprintf(tpl, args[:n]...), "", "src=related")
+		}
+	}
+	// field names that hold a wildcard character, numeric field names next to a lone star, quoted numbers next to an open end
+	for _, q := range []string{"a?:b", "x*y:1", "a?:[1 TO 2]", `"q?":w*`, "a?:(x OR y)", "a?:b AND c?:d", "?:1", "5:*", "1.5:*", "-3:*", "5:w*", `5:"*"`, "b:x AND NOT 7:(*)", "5:?",
+		`a:["5" TO *]`, `a:{* TO "2.5"}`, `a:["5" TO "7"]`, `a:{"1" TO 5}`, "a:{* TO 2.5}", "a:{* TO 2.50}", "a:[2.5 TO *}", "a:{1.25 TO *]", "a:{* TO 3}", "a:[* TO *}", "a:{* TO *}",
+		"a:[now/d TO c]", "a:[1/2 TO 3]", "a:{x TO y/z}", "a:b/c", "a:(b/c OR d)", "now/d", "a:x/", "a:[x/ TO y]",
+		"a~-2", "a~0", "a^-1", "a:b~-1", "+a:1 OR -b:2", "-a:1 OR +b:2", "+a:1 OR b:2", "NOT a:1 OR -b:2", "+a:1 AND -b:2"} {
+		emitQ(q, "", "src=related")
+		emitQ(q, "p?", "src=related")
+	}
+	// sub-lists inside value lists, in every position
+	for _, l := range []string{"(w OR (x OR y) OR z)", "(x OR (y OR (z OR w)))", "((x OR y) OR (z OR w))", "(x OR (y) OR z)", "((x) OR y)", "(w OR (x OR y))", "((w OR x) OR y OR z)", "(1 OR (2 OR 3) OR 4)",
+		"(b OR c OR d*)", "(b OR d* OR c)", "(d* OR b OR c)", "(b OR c OR /r/)", "(b OR c OR k:v)", "(k:v OR b)", "(b OR c OR d~)", "(b^2 OR c)", "(b OR c^2)", "(b OR c OR NOT d)", "(+b -c)", "((+b -c))", "(x OR (+b -c))"} {
+		emit("a:" + l)
+		emitQ("a:"+l, "dflt", "src=related")
+		emitQ("a:"+l+" AND g:1", "dflt", "src=related")
 	}
 	// value lists with repeated and related values
 	for _, l := range []string{"(x OR x)", "(x OR y OR x)", "(x OR X)", "(1 OR 1)", "(1 OR 2 OR 1)", "(\"5\" OR 5)", "(x OR \"x\")", "(open OR closed OR open)"} {
